@@ -17,6 +17,7 @@ import (
 	"errors"
 	"fmt"
 	"net/http"
+	"net/http/httptest"
 	"net/url"
 	"os"
 	"os/exec"
@@ -28,9 +29,13 @@ import (
 	"sync/atomic"
 	"time"
 
+	"github.com/fabiolb/fabio/admin/api"
 	"github.com/fabiolb/fabio/route"
 	"verif/harness/hx"
 )
+
+// dumpSink keeps the readers' results alive (nothing is optimised away)
+var dumpSink atomic.Value
 
 // (l first: the orchestrator's shrinker tries the fields in this order, and halving l makes every later
 // candidate cheap)
@@ -42,6 +47,10 @@ type stressIn struct {
 	Swap  int `json:"swap"`  // tables the replacer goroutine cycles through (0/1 = no replacement)
 	Seed  int `json:"seed"`
 	Rnd   int `json:"rnd"` // 0: picker rr   1: picker rnd (fabio's default strategy)
+	// 1: next to the lookups a goroutine does what the rest of fabio does with a PUBLISHED table: main.go logs
+	// t.Dump() right after route.SetTable(t) (log.routes.format=detail), the admin API prints
+	// route.GetTable().String() and lists the routes as JSON
+	Reader int `json:"reader"`
 }
 
 const (
@@ -49,6 +58,7 @@ const (
 	kindGlob
 	kindRedirect
 	kindMixed
+	kindAccess // requests from clients in different networks on targets with allow / deny rules (access.go)
 )
 
 var stressLetters = []string{"a", "b", "c", "d", "e", "f", "g", "h"}
@@ -57,13 +67,13 @@ func stressTableText() string {
 	var b strings.Builder
 	for _, l := range stressLetters {
 		fmt.Fprintf(&b, "route add svc-%s *.%s.example/ http://%s1:80/\n", l, l, l)
-		for j := 1; j <= 3; j++ {
+		for _, j := range []int{2, 3, 1} { // registration order is not address order
 			fmt.Fprintf(&b, "route add rr-%s *.%s.example/rr http://%sr%d:80/\n", l, l, l, j)
 		}
 		fmt.Fprintf(&b, "route add rw-%s *.%s.example/rw http://%sw1:80/ weight 0.25\n", l, l, l)
 		fmt.Fprintf(&b, "route add rw-%s *.%s.example/rw http://%sw2:80/\n", l, l, l)
 	}
-	for j := 1; j <= 3; j++ {
+	for _, j := range []int{3, 1, 2} {
 		fmt.Fprintf(&b, "route add rr rr.example/rr http://r%d:80/\n", j)
 	}
 	b.WriteString("route add rw rr.example/rw http://w1:80/ weight 0.25\n")
@@ -79,6 +89,7 @@ func stressTableText() string {
 	b.WriteString(`route add red-hl /red-hl https://$host/login opts "redirect=301"` + "\n")
 	b.WriteString(`route add red-b /red-b https://$host$path opts "redirect=301"` + "\n")
 	b.WriteString(`route add red-f /red-f https://to.example/fixed opts "redirect=301"` + "\n")
+	b.WriteString(accStressTableText())
 	return b.String()
 }
 
@@ -97,6 +108,8 @@ type routeOut struct {
 	Ring   []int  `json:"ring"`
 	Counts []int  `json:"counts"`
 	Picker string `json:"picker"`
+	// the ring (or the order of the targets) differs from what it was when the table was published
+	RingChanged bool `json:"ring_changed"`
 }
 
 type nullWriter struct {
@@ -116,7 +129,7 @@ func newRequest(host, path string) *http.Request {
 func tablePtr(t route.Table) uintptr { return reflect.ValueOf(t).Pointer() }
 
 func checkStressIn(in *stressIn) error {
-	if in.Kind < 0 || in.Kind > 3 || in.G < 1 || in.G > 64 || in.L < 1 || in.L > 2000000 || in.Cache < 1 || in.Cache > 64 || in.Swap < 0 || in.Swap > 16 || in.Rnd < 0 || in.Rnd > 1 {
+	if in.Kind < 0 || in.Kind > kindAccess || in.Reader < 0 || in.Reader > 1 || in.G < 1 || in.G > 64 || in.L < 1 || in.L > 2000000 || in.Cache < 1 || in.Cache > 64 || in.Swap < 0 || in.Swap > 16 || in.Rnd < 0 || in.Rnd > 1 {
 		return errors.New("out of range")
 	}
 	return nil
@@ -166,20 +179,26 @@ func childRun(raw json.RawMessage) (interface{}, error) {
 	nroutes := len(refs[0])
 	route.SetTable(tables[0])
 	cache := route.NewGlobCache(in.Cache)
-	globOff := in.Kind == kindRR || in.Kind == kindRedirect
+	globOff := in.Kind == kindRR || in.Kind == kindRedirect || in.Kind == kindAccess
 	pickerName := []string{"rr", "rnd"}[in.Rnd]
 	pick := route.Picker[pickerName]
 	match := route.Matcher["prefix"]
 	px := newProxy(route.GetTable, cache, globOff, pickerName)
 	// slots: which targets of a route own at least one ring slot (positive weight)
 	inRing := map[targetID]bool{}
+	ring0 := map[[2]int][]int{} // the ring of every route as it was when the table was built
+	targets0 := map[[2]int][]*route.Target{}
 	for i := range refs {
 		for j, rf := range refs[i] {
+			ring0[[2]int{i, j}] = route.VerifC06Ring(rf.r)
+			targets0[[2]int{i, j}] = append([]*route.Target(nil), rf.r.Targets...)
 			for _, k := range route.VerifC06Ring(rf.r) {
 				inRing[targetID{i, j, k}] = true
 			}
 		}
 	}
+	// per goroutine, per (route, client class): requests, 403 answers, other answers
+	accTally := make([][]accClassOut, in.G)
 
 	var mismatches, panics int64
 	var firstMismatch, firstPanic atomic.Value
@@ -199,13 +218,52 @@ func childRun(raw json.RawMessage) (interface{}, error) {
 				default:
 				}
 				route.SetTable(tables[i%nt])
+				if in.Reader == 1 {
+					dumpSink.Store(tables[i%nt].Dump()) // main.go: route.SetTable(t); logRoutes(t, …) → t.Dump()
+				}
 				atomic.AddInt64(&swaps, 1)
 				time.Sleep(50 * time.Microsecond)
 			}
 		}()
 	}
+	reads := int64(0)
+	if in.Reader == 1 {
+		swg.Add(1)
+		go func() {
+			defer swg.Done()
+			defer func() {
+				if p := recover(); p != nil {
+					atomic.AddInt64(&panics, 1)
+					firstPanic.CompareAndSwap(nil, fmt.Sprint("reader: ", p))
+				}
+			}()
+			admin := &api.RoutesHandler{}
+			for i := 0; ; i++ {
+				select {
+				case <-stop:
+					return
+				default:
+				}
+				switch i % 4 {
+				case 0:
+					dumpSink.Store(route.GetTable().Dump())
+				case 1:
+					dumpSink.Store(route.GetTable().String())
+				case 2:
+					rec := httptest.NewRecorder()
+					admin.ServeHTTP(rec, httptest.NewRequest("GET", "/api/routes", nil))
+				default:
+					rec := httptest.NewRecorder()
+					admin.ServeHTTP(rec, httptest.NewRequest("GET", "/api/routes?raw", nil))
+				}
+				atomic.AddInt64(&reads, 1)
+				time.Sleep(20 * time.Microsecond)
+			}
+		}()
+	}
 	start := make(chan struct{})
 	for g := 0; g < in.G; g++ {
+		accTally[g] = make([]accClassOut, len(accStressRoutes)*len(accStressClients))
 		cnt := make([][][]int, nt)
 		for i := range cnt {
 			cnt[i] = make([][]int, nroutes)
@@ -277,6 +335,22 @@ func childRun(raw json.RawMessage) (interface{}, error) {
 							atomic.AddInt64(&mismatches, 1)
 							firstMismatch.CompareAndSwap(nil, "target not in any table: "+tg.Service)
 						}
+					case kindAccess:
+						ri := rnd.Intn(len(accStressRoutes))
+						ci := rnd.Intn(len(accStressClients))
+						req := accStressClients[ci].build("acc.example", "/"+accStressRoutes[ri].name)
+						w := &nullWriter{h: http.Header{}}
+						px.ServeHTTP(w, req)
+						c := &accTally[g][ri*len(accStressClients)+ci]
+						c.Route, c.Client = ri, ci
+						c.N++
+						switch {
+						case w.code == 403:
+							c.Denied++
+						case w.code == 301 && w.h.Get("Location") == "https://to.example/"+accStressRoutes[ri].name:
+						default:
+							c.Other++
+						}
 					case kindRedirect:
 						// every goroutine alternates between two hosts nobody else uses; the five template forms
 						// take turns; the expected Location is a function of this request alone
@@ -344,10 +418,38 @@ func childRun(raw json.RawMessage) (interface{}, error) {
 				continue
 			}
 			ro.Ring = route.VerifC06Ring(r)
+			// the ring and the target list of a published table never change
+			ro.RingChanged = !reflect.DeepEqual(ro.Ring, ring0[[2]int{i, j}]) || len(r.Targets) != len(targets0[[2]int{i, j}])
+			for k, tg := range targets0[[2]int{i, j}] {
+				if k < len(r.Targets) && r.Targets[k] != tg {
+					ro.RingChanged = true
+				}
+			}
+			ro.Ring = ring0[[2]int{i, j}]
 			routes = append(routes, ro)
 		}
 	}
 	out["routes"] = routes
+	out["reads"] = atomic.LoadInt64(&reads)
+	if in.Kind == kindAccess {
+		classes := []accClassOut{}
+		for k := 0; k < len(accStressRoutes)*len(accStressClients); k++ {
+			c := accClassOut{Route: k / len(accStressClients), Client: k % len(accStressClients)}
+			for g := 0; g < in.G; g++ {
+				c.N += accTally[g][k].N
+				c.Denied += accTally[g][k].Denied
+				c.Other += accTally[g][k].Other
+			}
+			if c.N > 0 {
+				classes = append(classes, c)
+			}
+		}
+		rules := []accRules{}
+		for _, r := range accStressRoutes {
+			rules = append(rules, r.rules)
+		}
+		out["access"] = map[string]interface{}{"pools": accPools(), "rules": rules, "clients": accStressClients, "classes": classes}
+	}
 	keys, l, h, n := route.VerifC06CacheDump(cache)
 	out["cache"] = map[string]int{"size": in.Cache, "entries": len(keys), "l": len(l), "h": h, "n": n}
 	return out, nil
@@ -457,7 +559,7 @@ func stressGen(kind int, rndPicker bool) func(r *hx.Rand, i int) interface{} {
 			in.Rnd = 1
 		}
 		in.G = []int{8, 16, 4}[i%3]
-		per := map[int]int{kindRR: 160000, kindGlob: 24000, kindRedirect: 64000, kindMixed: 32000}[kind]
+		per := map[int]int{kindRR: 160000, kindGlob: 24000, kindRedirect: 64000, kindMixed: 32000, kindAccess: 48000}[kind]
 		if i >= 4 {
 			per *= 4
 		}
@@ -469,6 +571,11 @@ func stressGen(kind int, rndPicker bool) func(r *hx.Rand, i int) interface{} {
 		if i%2 == 1 {
 			in.Swap = 3
 		}
+		// the rest of fabio reading the published table next to the lookups: always when tables are replaced
+		// (main.go dumps the table it has just published), and on every fourth case without replacement
+		if in.Swap > 1 || i%4 == 2 {
+			in.Reader = 1
+		}
 		return in
 	}
 }
@@ -479,6 +586,7 @@ func init() {
 	hx.Register(&hx.Stream{Name: "c06.glob-race", Gen: stressGen(kindGlob, false), Run: stressRun(kindGlob)})
 	hx.Register(&hx.Stream{Name: "c06.redirect-race", Gen: stressGen(kindRedirect, false), Run: stressRun(kindRedirect)})
 	hx.Register(&hx.Stream{Name: "c06.mixed-race", Gen: stressGen(kindMixed, false), Run: stressRun(kindMixed)})
+	hx.Register(&hx.Stream{Name: "c06.access-race", Gen: stressGen(kindAccess, false), Run: stressRun(kindAccess)})
 	// the default strategy `rnd` on the literal-host routes (plain, weighted, zero-weight) and on the glob hosts
 	hx.Register(&hx.Stream{Name: "c06.rnd-race", Gen: func(r *hx.Rand, i int) interface{} {
 		return stressGen([]int{kindRR, kindMixed}[i%2], true)(r, i/2+i%2)
